@@ -1100,7 +1100,93 @@ func loopCounterBelowLen(v, coll ssa.Value) bool {
 	return hasInit && hasInc
 }
 
+// addTerms flattens a tree of integer additions into its non-constant terms and the sum of its constants.
+func addTerms(v ssa.Value) (terms []ssa.Value, k int64) {
+	if c, isK := ConstInt(v); isK {
+		return nil, c
+	}
+	if bo, ok := v.(*ssa.BinOp); ok && bo.Op == token.ADD {
+		t1, k1 := addTerms(bo.X)
+		t2, k2 := addTerms(bo.Y)
+		return append(t1, t2...), k1 + k2
+	}
+	return []ssa.Value{v}, 0
+}
+
+// searchFrom: r is the result of strings/bytes Index*(s[p:], ...): -1 or an offset below len(s)-p.
+func searchFrom(r, s, p ssa.Value) bool {
+	cl, ok := r.(*ssa.Call)
+	if !ok || len(cl.Call.Args) == 0 {
+		return false
+	}
+	f := CalleeObj(&cl.Call)
+	if f == nil || f.Pkg() == nil || (f.Pkg().Path() != "strings" && f.Pkg().Path() != "bytes") || !(strings.HasPrefix(f.Name(), "Index") || strings.HasPrefix(f.Name(), "LastIndex")) {
+		return false
+	}
+	sl, ok := cl.Call.Args[0].(*ssa.Slice)
+	return ok && sameValue(sl.X, s) && sl.Low == p && sl.High == nil && sl.Max == nil
+}
+
+// searchCursor: p is a cursor into s that starts at 0 and only ever advances past a match found from it:
+// p = phi(0, p + r + 1) with r = Index*(s[p:], ...) >= 0, hence 0 <= p <= len(s) at every use.
+func searchCursor(p, s ssa.Value) bool {
+	phi, ok := p.(*ssa.Phi)
+	if !ok {
+		return false
+	}
+	for i, e := range phi.Edges {
+		if k, isK := ConstInt(e); isK && k == 0 {
+			continue
+		}
+		terms, k := addTerms(e)
+		if len(terms) != 2 || k < 0 || k > 1 {
+			return false
+		}
+		r := terms[0]
+		if r == ssa.Value(phi) {
+			r = terms[1]
+		} else if terms[1] != ssa.Value(phi) {
+			return false
+		}
+		if !searchFrom(r, s, phi) || !provenNonNeg(r, edgeCmpFacts(phi.Block().Preds[i], phi.Block()), 0) {
+			return false
+		}
+	}
+	return true
+}
+
+// searchCursorGuard: s[p:], s[:p+r], s[p:p+r] where p is a search cursor of s and r a match offset found from it.
+func searchCursorGuard(x *ssa.Slice) string {
+	if x.Max != nil || (x.Low == nil && x.High == nil) {
+		return ""
+	}
+	var cursor ssa.Value
+	if x.Low != nil {
+		if !searchCursor(x.Low, x.X) {
+			return ""
+		}
+		cursor = x.Low
+	}
+	if x.High != nil {
+		terms, k := addTerms(x.High)
+		if len(terms) != 2 || k < 0 || k > 1 {
+			return ""
+		}
+		p, r := terms[0], terms[1]
+		if !searchCursor(p, x.X) {
+			p, r = r, p
+		}
+		if !searchCursor(p, x.X) || (cursor != nil && p != cursor) || !searchFrom(r, x.X, p) || !provenNonNeg(r, CmpFactsAt(x), 0) {
+			return ""
+		}
+	}
+	return "bounds are a search cursor (0, then past each match of Index*(s[cursor:])) and a match offset found from it, both within the sliced value"
+}
+
 func sliceGuard(x *ssa.Slice) string {
+	if g := searchCursorGuard(x); g != "" {
+		return g
+	}
 	// clamp idiom: 0 <= low <= high <= len established by dominating comparisons and clamping assignments
 	{
 		facts := CmpFactsAt(x)
